@@ -174,36 +174,35 @@ def run(prog: Program, rep: Report, tier: str):
         return s_ is not None and s_[0] == "call" and s_[1] == tf and len(s_[2]) == 1 and (
             s_[2][0] in (raw, raw_attr) or s_[2][0][0] == "var")
 
-    sources = []  # (return node, defining node, term)
-    for n, t in rets:
-        if t is not None and t[0] == "var":
-            for d in t[2]:
-                val = cfg.def_value(d, t[1])
-                sources.append((n, d, fa.sym.term(val, d) if val is not None else None))
-        else:
-            sources.append((n, n, t))
-    tf_nodes = {d for _, d, s_ in sources if is_tf(s_)}
+    # judged on the CFG pruned by each of the two configurations: with a transform set every return must hand back
+    # transform(<cached sample>), without one the cached sample itself - whatever the control flow looks like
+    isnone = ("is", tuple(sorted((("const", None), tf), key=repr)))
+
+    def sources_of(pfa):
+        out = []
+        for n, t in pfa.returns():
+            if t is not None and t[0] == "var":
+                for d in t[2]:
+                    val = pfa.cfg.def_value(d, t[1])
+                    out.append((n, d, pfa.sym.term(val, d) if val is not None else None))
+            else:
+                out.append((n, n, t))
+        return out
     if not rets:
         ok, why = False, "no return"
-    elif not tf_nodes:
-        ok, why = False, "the post-cache transform is never applied to the returned sample"
-    for n, d, s_ in sources:
-        if not ok:
-            break
-        if is_tf(s_):
-            if has_tf not in fa.conds_at(d):
-                ok, why = False, "the transform is applied without checking that one is set"
-        elif s_ in (raw, raw_attr):
-            # the untransformed sample may be returned only when no transform is set
-            for m in tests:
-                succ = cfg.out_edge(m, True)
-                if succ is not None and succ not in tf_nodes and (succ == n or cfg.reachable(succ, n, avoid=tf_nodes)) \
-                        and (d == m or cfg.reachable(d, m) or cfg.dominates(d, m)):
-                    ok, why = False, "a path with a transform set returns the untransformed sample"
-            if not tests:
-                ok, why = False, "the untransformed sample is returned without testing whether a transform is set"
-        else:
-            ok, why = False, f"returns {show(s_)[:60] if s_ else '?'}: neither the cached sample nor its transform"
+    else:
+        with_tf = sources_of(fa.prune({isnone: False}))
+        without = sources_of(fa.prune({isnone: True}))
+        if not any(is_tf(s_) for _, _, s_ in with_tf + sources_of(fa)):
+            ok, why = False, "the post-cache transform is never applied to the returned sample"
+        elif any(s_ in (raw, raw_attr) for _, _, s_ in with_tf):
+            ok, why = False, "a path with a transform set returns the untransformed sample"
+        elif any(is_tf(s_) for _, _, s_ in without):
+            ok, why = False, "the transform is applied without checking that one is set"
+        elif not all(is_tf(s_) for _, _, s_ in with_tf) or not all(s_ in (raw, raw_attr) for _, _, s_ in without):
+            odd = [s_ for _, _, s_ in with_tf if not is_tf(s_)] + [s_ for _, _, s_ in without if s_ not in (raw, raw_attr)]
+            ok, why = None, f"a return hands back {show(odd[0])[:60] if odd and odd[0] else '?'}: neither the cached sample nor its " \
+                            f"transform (not decided)"
     rep.decide(ok, "G8.transform-after-cache", gi, "returned-value", why, why, clause="C19.3")
     stores = [(n, var) for n, var, val in fa.stores() if "." in var or var.endswith("[]")]
     rep.decide(not stores, "G8.transform-after-cache", gi, "no-store", "__getitem__ stores nothing",
